@@ -550,6 +550,11 @@ func newSSAStyleFromString(content string, format map[int]string) (s *ssaStyle, 
 			return
 		}
 
+		// Empty items are attributes the style doesn't set
+		if len(item) == 0 {
+			continue
+		}
+
 		// Switch on attribute name
 		switch attr {
 		// Bool
